@@ -305,6 +305,18 @@ def r_request_framing(r, prog, repo):
         r.finding('request-operation-name', f.span, 'the request starts with %s (schema operation: %s)' % (shape[:1], want_name))
     # which vector is which: the one pushed under is_source == true is the first sequence
     host, via = decisions.request_partition_host(prog)
+    # the two sequences are written in the order the files were compiled in (argument order): nothing sorts, reverses or thins them out
+    # between the partition and the encoding
+    ORDER = re.compile(r'^(sort(_unstable)?(_by(_key|_cached_key)?)?|reverse|rev|swap(_remove)?|rotate_(left|right)|retain(_mut)?|dedup(_by(_key)?)?|remove|truncate|drain|pop|split_off|insert)$')
+    hosts = {f.path: f}
+    if host is not None:
+        hosts[host.path] = host
+    moved = [(g, c) for g in hosts.values() for c in g.calls() if ORDER.match(c.name()) and not g.blocks[c.bb].get('cleanup')]
+    if moved:
+        g, c = moved[0]
+        r.finding('request-files-reordered:%s' % c.name(), c.span, '%s calls %s on %s: the files reach the generators in another order than they were given and compiled in' % (g.path, c.name(), vexpr(g, c.args[0])[:60] if c.args else '?'))
+    else:
+        r.ok('the source and reference sequences keep the order of the compiled files (no sorting or removal before they are encoded)')
     if host is not f:
         return _request_partition_through_helper(r, prog, f, host, via, tr)
     pushes = [(vexpr(f, c.args[0]), vexpr(f, c.args[1]), guards.guard_set(prog, f, c.bb), c) for c in f.calls() if c.name() == 'push' and not f.blocks[c.bb].get('cleanup')]
